@@ -1,5 +1,6 @@
 mod alloc;
 mod app;
+mod caps;
 mod drive;
 mod dsl;
 mod legacy;
@@ -52,6 +53,38 @@ fn main() {
                     w.write_all(b"\n").unwrap();
                 }
             }
+            w.flush().unwrap();
+        }
+        Some("caps") => {
+            // caps <cases.ndjson> <out.ndjson> <nconc>: only failures and a summary are written
+            let inp = std::fs::File::open(&args[2]).expect("open cases");
+            let out = std::fs::File::create(&args[3]).expect("create out");
+            let nconc: usize = args.get(4).and_then(|s| s.parse().ok()).unwrap_or(3);
+            let mut w = BufWriter::new(out);
+            let (mut n, mut bad, mut known) = (0u64, 0u64, 0u64);
+            for line in std::io::BufReader::new(inp).lines() {
+                let line = line.unwrap();
+                if line.trim().is_empty() {
+                    continue;
+                }
+                let case: serde_json::Value = serde_json::from_str(&line).expect("bad case");
+                for r in caps::run_case(&case, nconc) {
+                    n += 1;
+                    if r["ok"] != true {
+                        if r["known"].is_null() {
+                            bad += 1;
+                        } else {
+                            known += 1;
+                        }
+                        if (r["known"].is_null() && bad <= 3000) || (!r["known"].is_null() && known <= 300) {
+                            serde_json::to_writer(&mut w, &r).unwrap();
+                            w.write_all(b"\n").unwrap();
+                        }
+                    }
+                }
+            }
+            serde_json::to_writer(&mut w, &serde_json::json!({"summary":true,"executions":n,"bad":bad,"known":known})).unwrap();
+            w.write_all(b"\n").unwrap();
             w.flush().unwrap();
         }
         Some("mt") => {
